@@ -98,7 +98,7 @@ func kindOfValue(v value) (types.BasicKind, bool) {
 		return types.Float32, true
 	case float64:
 		return types.Float64, true
-	case string, symstr:
+	case string, symstr, numtext:
 		return types.String, true
 	}
 	return 0, false
@@ -106,7 +106,7 @@ func kindOfValue(v value) (types.BasicKind, bool) {
 
 func isSym(v value) bool {
 	switch v.(type) {
-	case sym, symstr:
+	case sym, symstr, numtext:
 		return true
 	}
 	return false
